@@ -533,6 +533,14 @@ func (c20) Eval(c *Chooser, env *Env) *Outcome {
 		ro.ReuseLinter, ro.PriorFile = true, pp
 		o.probe("second_call_on_one_linter", 1)
 	}
+	if !withFaults && !viaMain && !brokenRepo && !ro.ReuseLinter && w.API == APIFiles && len(w.Files) >= 2 && c.Weighted("world.twoclients", 1, 8) {
+		// an embedding program with two lint calls in flight at once: two Linters (created one after the
+		// other), each with one half of the files, on tasks of their own. Every script still goes to its
+		// tool exactly once, every issue becomes a diagnostic, nothing deadlocks; the process bound is a
+		// bound per call and is not checked across the two.
+		w.TwoClients = true
+		o.probe("two_lint_calls_in_flight", 1)
+	}
 	res := RunLint(w, c, ro)
 	o.addRun(res.K)
 	if env.KeepTrace {
@@ -564,7 +572,7 @@ func (c20) Eval(c *Chooser, env *Env) *Outcome {
 		return o
 	}
 	// (c) never more tool processes at once than the machine has CPUs
-	if k.ProcBoundViolated != "" {
+	if k.ProcBoundViolated != "" && !w.TwoClients {
 		o.V = &Violation{Oracle: "process-bound", Class: "more-processes-than-cpus", Message: k.ProcBoundViolated}
 		return o
 	}
